@@ -783,14 +783,15 @@ impl Planner {
                 }
             }
 
-            let operator = Box::new(ProjectOperator::with_store(
+            let distinct_schema = output_types.clone();
+            let operator: Box<dyn Operator> = Box::new(ProjectOperator::with_store(
                 input_op,
                 projections,
                 output_types,
                 Arc::clone(&self.store),
             ));
 
-            Ok((operator, columns))
+            Ok((Self::apply_return_distinct(ret, operator, distinct_schema), columns))
         } else {
             // Simple case: just return variables
             // Re-order columns to match return items if needed
@@ -815,11 +816,26 @@ impl Planner {
                     .all(|(i, p)| matches!(p, ProjectExpr::Column(c) if *c == i))
             {
                 // No reordering needed
-                Ok((input_op, columns))
+                Ok((Self::apply_return_distinct(ret, input_op, output_types), columns))
             } else {
-                let operator = Box::new(ProjectOperator::new(input_op, projections, output_types));
-                Ok((operator, columns))
+                let distinct_schema = output_types.clone();
+                let operator: Box<dyn Operator> =
+                    Box::new(ProjectOperator::new(input_op, projections, output_types));
+                Ok((Self::apply_return_distinct(ret, operator, distinct_schema), columns))
             }
+        }
+    }
+
+    /// RETURN DISTINCT: de-duplicate the projected rows.
+    fn apply_return_distinct(
+        ret: &ReturnOp,
+        operator: Box<dyn Operator>,
+        schema: Vec<LogicalType>,
+    ) -> Box<dyn Operator> {
+        if ret.distinct {
+            Box::new(DistinctOperator::new(operator, schema))
+        } else {
+            operator
         }
     }
 
